@@ -21,7 +21,7 @@ pub fn spec() -> Spec {
         case_cap_s: |t| t.pick(60, 300),
         rule: "family 'roundtrip': every labeled complete D-symbol (connected or not) of dimension 1-3 up to the size bound with branching in V, printed from PartialDSym and SimpleDSym, parsed back, compared structurally (dim, size, every op, every v), and printed again; family 'large': harness-built coset symbols of finite Coxeter groups with 10-384 (thorough: 1152) chambers (multi-digit numbers) under 9 systematic renumberings, and generator outputs with >= 10 chambers; family 'edit' (deviation-bounded): deviation 0 = every text of family 'roundtrip' up to the edit size bound, deviation 1 = every single-token edit of it (replace a number by each of 10 boundary values, replace/delete/duplicate/insert a token, truncate), deviation 2 on the texts of symbols of size <= 2 with all v = 1; family 'soup': every string of <= L tokens over a 14-token alphabet. Oracle for every parse: no panic, no abort, returns within the cap; Ok(sym) => every op is a total involution on 1..size, every degree is a multiple of its orbit length (orbit walks of the reference model), and print(sym) parses back to the same symbol. Non-trivial = a text that the parser accepts, or a symbol of size >= 2.",
         assumptions: &["texts are produced by the crate's own Display (that is the property: print then parse)"],
-        bounds: |t| json!({"roundtrip_max_size": t.pick(3, 4), "V": [1,2,3], "huge_degree_family": "sizes <= 2 [3], one orbit with v = 2^b-1, 2^b, 2^b+1 for b in 7,8,15,16,31,32,53,59", "V_at_size_4": [1,2], "edit_max_size": t.pick(2, 3), "edit_size3_only_unbranched_dim2": true,
+        bounds: |t| json!({"roundtrip_max_size": t.pick(3, 4), "V": [1,2,3], "mid_family": "generator representatives dim 2 sizes 5-8 [9], dim 3 sizes 4-6 [7], dim 4 sizes 2-5 [6], unbranched and one orbit with v = 2 or 12; disjoint unions of two labeled symbols of size <= 2", "huge_degree_family": "sizes <= 2 [3], one orbit with v = 2^b-1, 2^b, 2^b+1 for b in 7,8,15,16,31,32,53,59", "V_at_size_4": [1,2], "edit_max_size": t.pick(2, 3), "edit_size3_only_unbranched_dim2": true,
             "deviation2_max_size": 2, "soup_tokens": t.pick(4, 5), "large_sizes": "10..384 (thorough 1152)", "generator_outputs_min_size": 10, "generator_dsets_max_size": t.pick(10, 11)}),
     }
 }
@@ -332,6 +332,59 @@ fn run(ctx: &mut Ctx) {
                     }
                 });
             });
+        }
+    }
+    // mid-size symbols: one representative per class of D-sets from the generator in dimensions 2-4 (many have
+    // one-chamber or two-chamber orbits for some index pair, i.e. long degree lists), unbranched and with one
+    // branched orbit; and disjoint unions of two small symbols (a complete symbol need not be connected)
+    {
+        use rust_dsymbols::dsets::DSet;
+        for (dim, lo, hi) in [(2usize, 5usize, tier.pick(8, 9)), (3, 4, tier.pick(6, 7)), (4, 2, tier.pick(5, 6))] {
+            let mut it = ctx.supply("DSets::new", || Some(DSets::new(dim, hi)));
+            loop {
+                let ds = match it.as_mut().map(|g| ctx.guard(|| g.next())) {
+                    Some(Ok(Some(d))) => d,
+                    _ => break,
+                };
+                if ds.size() < lo || !ctx.take() {
+                    continue;
+                }
+                if let Some(plain) = from_dset(&ds) {
+                    if plain.is_involutive() {
+                        for_each_branching(&plain.ops, &[1, 2, 12], 1, &mut |s| {
+                            roundtrip(ctx, "mid", s);
+                            ctx.add("mid_symbols", 1);
+                        });
+                    }
+                }
+            }
+        }
+        let mut parts: Vec<RS> = vec![];
+        for dim in 2..=3usize {
+            for n in 1..=2usize {
+                for_each_labeled_set(dim, n, true, &mut |ops| {
+                    for_each_branching(ops, &[1, 3], 1, &mut |s| parts.push(s.clone()));
+                });
+            }
+        }
+        for a in &parts {
+            for b in &parts {
+                if a.dim() != b.dim() || !ctx.take() {
+                    continue;
+                }
+                // a on chambers 0..a.n, b shifted behind it; also interleaved so that first-unassigned order mixes them
+                let n = a.n + b.n;
+                let ops: Vec<Vec<usize>> = (0..=a.dim()).map(|i| a.ops[i].iter().cloned().chain(b.ops[i].iter().map(|&x| x + a.n)).collect()).collect();
+                let v: Vec<Vec<usize>> = (0..a.dim()).map(|i| a.v[i].iter().cloned().chain(b.v[i].iter().cloned()).collect()).collect();
+                let u = RS { n, ops, v };
+                roundtrip(ctx, "union", &u);
+                let p: Vec<usize> = (0..n).map(|d| (d * 2) % n + if n % 2 == 0 && d >= n / 2 { 1 } else { 0 }).collect();
+                let mut seen = vec![false; n];
+                if p.iter().all(|&x| x < n && !std::mem::replace(&mut seen[x], true)) {
+                    roundtrip(ctx, "union", &u.relabel(&p));
+                }
+                ctx.add("union_symbols", 1);
+            }
         }
     }
     // large symbols with multi-digit chamber numbers
